@@ -211,13 +211,15 @@ char *s; char *r; int at;
    args[2] = x;
    n = byte_chr(x,xlen,0); if (n++ == xlen) _exit(QLX_USAGE); x += n; xlen -= n;
 
-   scan_ulong(x,&u);
+   n = byte_chr(x,xlen,0); if (n++ == xlen) _exit(QLX_USAGE);
+   scan_ulong(x,&u); /* stops at the \0 just found */
    uid = u;
-   n = byte_chr(x,xlen,0); if (n++ == xlen) _exit(QLX_USAGE); x += n; xlen -= n;
+   x += n; xlen -= n;
 
+   n = byte_chr(x,xlen,0); if (n++ == xlen) _exit(QLX_USAGE);
    scan_ulong(x,&u);
    gid = u;
-   n = byte_chr(x,xlen,0); if (n++ == xlen) _exit(QLX_USAGE); x += n; xlen -= n;
+   x += n; xlen -= n;
 
    args[3] = x;
    n = byte_chr(x,xlen,0); if (n++ == xlen) _exit(QLX_USAGE); x += n; xlen -= n;
